@@ -1,5 +1,6 @@
 (** C19 — pinned statements. Nothing but statements, [exact], and assumption audits. *)
-From TU Require Import Base C19_Model C19_Proofs C19_Count C19_Check C19_Delta C19_NoDup C19_Lit C19_LitMaps C19_LitScan C19_LitProofs C19_LitRun.
+From TU Require Import Base C19_Model C19_Proofs C19_Count C19_Check C19_Delta C19_NoDup C19_Lit C19_LitMaps C19_LitScan C19_LitProofs C19_LitRun
+  MsgPack_Model C19_File C19_FileProofs.
 From Coq Require Import Permutation.
 Open Scope N_scope.
 
@@ -381,3 +382,58 @@ Example ex_lit_order :
 Proof. vm_compute. split; reflexivity. Qed.
 Example ex_lit_distinct : NoDup (in_corpus ex_in).
 Proof. vm_compute. repeat constructor; cbn; intuition discriminate. Qed.
+
+(** * The merge file inside the model (third session; MsgPack_Model.v, MsgPack_Props.v)
+    [train_bpe] ends with [merge_ops.save(out_file)] = [rmp_serde::to_vec] of the [HashMap<Vec<u8>, u32>]
+    {merge p_i : i}.  [mp_encode es] is that writer for the iteration order [es]; [mp_parse] / [load_table] the
+    reader as [MergeOps::load] + [BPETokenizer::new] use it. *)
+
+(** Every run of the literal loop (every iteration order of the statistics at every step) ends with a table whose
+    FILE — for every order in which [save] may iterate the map, with any bytes behind it — is read back entry for
+    entry and loads as exactly that table, keys in id order.  Premises beyond [train_lit_refines]: the words of the
+    corpus are byte strings shorter than 2^32 and the merge budget is below 2^32 (the format writes the three
+    lengths and the ids [as u32]). *)
+Theorem trained_file : forall c k o, CorpusOK [] c -> CorpusBytes c -> N.of_nat k <= u32_max ->
+  LRun c (byte_pair_stats_lit c) k o ->
+  exists ps, o = Done ps /\ Run c k ps /\ NoDup (map merge ps) /\
+    forall es junk, Permutation es (entries_of_table (map merge ps)) ->
+      mp_parse (mp_encode es ++ junk) = Some (es, junk) /\
+      load_table (mp_encode es ++ junk) = Loaded (map merge ps).
+Proof. exact trained_file_l. Qed.
+Print Assumptions trained_file.
+
+(** The vocabulary [train_bpe] counts from text meets [CorpusBytes] when every word is text of scalar values whose
+    UTF-8 is shorter than 2^32 bytes. *)
+Theorem corpus_of_bytes : forall m : cmap,
+  (forall w n, In (w, n) m -> Forall (fun ch => ch < 1114112) w /\ N.of_nat (length (utf8s w)) <= u32_max) ->
+  CorpusBytes (corpus_of m).
+Proof. exact corpus_of_bytes_l. Qed.
+Print Assumptions corpus_of_bytes.
+
+(** What the file clause of the correspondence ([file_agree_C19], field 7 of the implementation output = the bytes
+    the real [train_bpe] wrote) means when it accepts: the bytes are [mp_encode] of the table's entries in some
+    order with nothing behind them, they load as the table, and the real [MergeOps::load] read these entries. *)
+Theorem file_agree_sound : forall i tv a1 a2 a3 a4 a5 a6 fb, i = L [tv; a1; a2; a3; a4; a5; a6; fb] ->
+  file_agree_C19 i = true ->
+  exists es, v_list v_n fb = mp_encode es /\ mp_parse (v_list v_n fb) = Some (es, []) /\
+             Permutation es (entries_of_table (out_entries i)) /\ NoDup (out_entries i) /\
+             load_table (v_list v_n fb) = Loaded (out_entries i) /\ v_entries tv = sort_items es.
+Proof. exact file_agree_sound_l. Qed.
+Print Assumptions file_agree_sound.
+
+(** Non-vacuity: the corpus of [ex_lit_train] (3 merges), written in the order id 2, 0, 1. *)
+Definition ex_lm : cmap := [([97; 97; 97], 1); ([97; 98; 97; 98], 2); ([97; 98; 99; 97; 98; 97], 3); ([98], 1)].
+Example ex_file_premises : ex_lc = corpus_of ex_lm /\ CorpusOK [] ex_lc /\ CorpusBytes ex_lc /\ N.of_nat 3 <= u32_max.
+Proof.
+  assert (E : ex_lc = corpus_of ex_lm) by (vm_compute; reflexivity).
+  split; [exact E|]. rewrite E. split; [apply corpus_of_ok|]. split; [|vm_compute; discriminate].
+  apply corpus_of_bytes_l. intros w n Hin.
+  repeat (destruct Hin as [H|Hin]; [injection H as <- <-; split; [repeat constructor|vm_compute; discriminate]|]). destruct Hin.
+Qed.
+Example ex_file_bytes :
+  let es := [([99; 97; 98; 97], 2); ([97; 98], 0); ([97; 98; 97], 1)] in
+  mp_encode es = [131; 148; 99; 97; 98; 97; 2; 146; 97; 98; 0; 147; 97; 98; 97; 1] /\
+  load_table (mp_encode es) = Loaded [[97; 98]; [97; 98; 97]; [99; 97; 98; 97]] /\
+  file_agree_C19 (L [L [L [I 0; L [I 97; I 98]]; L [I 1; L [I 97; I 98; I 97]]; L [I 2; L [I 99; I 97; I 98; I 97]]];
+                     L []; I 0; L []; L []; L []; L []; list_v n_v (mp_encode es)]) = true.
+Proof. vm_compute. repeat split; reflexivity. Qed.
